@@ -49,6 +49,10 @@ type PeerPlan struct {
 	BlockSize  int               `json:"block_size"` // 0 = PRNG 1..256 per data block, k = fixed
 	Comments   int               `json:"comments"`   // 0 none, 1 "; text" lines, 2 also ;PM: lines
 	EarlyFQ    bool              `json:"early_fq"`
+	// CMSHangup: what the Winlink CMS does instead of turning the session over after its last block: when it has nothing
+	// more pending (and, here, the station has nothing more either) it sends FQ right behind its last frame and hangs
+	// up without waiting for the station's next word. The station's own FF may then meet a closed link.
+	CMSHangup bool `json:"cms_hangup,omitempty"`
 	DupInBlock bool              `json:"dup_in_block"`
 	// HoldFirst: in its first turn the peer says FF although it has traffic (as if the traffic arrived a
 	// moment later), provided the station still has messages to send; it offers its messages from its next turn on.
@@ -87,6 +91,7 @@ type Result struct {
 	ResumedTransfers int // transfers the peer asked to resume from an offset > 0
 	HeldTurns        int // turns in which the peer said FF while holding traffic back (plan.HoldFirst)
 	Complaints       []Complaint
+	HungUpBehindFQ   bool   // CMSHangup took place
 	Err              error  // why the peer stopped early (nil = session ended by FQ per protocol)
 	LibError         string // a "*** ..." line from the station under test
 	// Handshake of the station under test
@@ -492,6 +497,35 @@ func (p *peer) outTurn() (done bool, err error) {
 			p.deferredNow[m.MID] = true
 		case 'E':
 			p.complain("fs-error-answer", "station answered E (error in line) for a well-formed proposal of %s", m.MID)
+		}
+	}
+	if p.plan.CMSHangup && len(sentNow) > 0 {
+		more := false
+		for _, m := range p.pending {
+			sent := false
+			for _, mid := range sentNow {
+				sent = sent || mid == m.MID
+			}
+			if !sent && !p.deferredNow[m.MID] {
+				more = true
+			}
+		}
+		for mid := range p.truth {
+			if !p.libDone[mid] {
+				more = true
+			}
+		}
+		if !more {
+			if err := p.line("turn", "fq", "FQ"); err != nil {
+				return true, err
+			}
+			p.res.FQBy = "peer"
+			p.res.HungUpBehindFQ = true
+			for _, mid := range sentNow {
+				p.res.Delivered = append(p.res.Delivered, mid) // not confirmed on the wire: the judge looks at the station's handler log
+				p.dropPending(mid)
+			}
+			return true, nil // Run closes the connection
 		}
 	}
 	// Receipt is acknowledged implicitly by the first byte of the station's next turn.
